@@ -68,7 +68,9 @@ WithNul(ls) == IF Len(ls) = 0 THEN ls ELSE <<ls[1], NULLINE>> \o Tail(ls)
               recognised) | nocmd (decompressor cannot be started)                          *)
 
 \* negsel / negunsel: every --pre-glob is negated ("!*.zzz" / "!*.txt"): a file that none of them matches IS selected
-Selected(s) == IF s.kind = "z" THEN s.zstate # "unrec" ELSE s.preglob \in {"none", "sel", "negsel"}
+\* selz / unselz / negunselz: the same three with -z given BEFORE --pre and the file named like a gzip archive (plain text
+\* inside): --pre switches -z off, so a file that --pre-glob does not select is searched directly, as it is
+Selected(s) == IF s.kind = "z" THEN s.zstate # "unrec" ELSE s.preglob \in {"none", "sel", "negsel", "selz"}
 Spawned(s) == ~(s.kind = "missing" \/ (s.kind = "z" /\ s.zstate = "nocmd"))
 \* the model knows the bytes the command writes, except for a truncated archive
 \* (noisy: a valid archive whose decompressor first writes several hundred KB to its stderr and then succeeds: no effect)
